@@ -264,6 +264,9 @@ func TestVerif(t *testing.T) {
 			simrt.Reset()
 			p.Run(t, cj, res)
 		}()
+		if n := simrt.NRecursiveRLock.Load(); n > 0 {
+			res.stat("recursive_read_lock_acquisitions_held_back_by_the_scheduler", n)
+		}
 		simrt.Reset()
 		close(done)
 		res.WallUs = time.Since(t0).Microseconds()
